@@ -25,5 +25,42 @@ CHECKS = {
         "note": "container/heap is transcribed as built; exhaustive only within the stated bounds (|U|=2 for generation, 4 ids x 3 priorities), long runs are sampled.",
     },
 }
+
+_V2 = "TLA+ specs V2Tokenizer/V2TokGen (tokenizer as built), V2Contract/TraceV2 (API contract): TLC model check + TLC-enumerated inputs replayed into the real tokenizer + recorded API histories validated by TLC"
+CHECKS.update({
+    "C01": {"technique": "recorded Match histories validated by TLC against V2Contract (PlantedFound / WellFormed guards); plants positioned by white-box tokenisation",
+            "text": "Every corpus document (all at 0.8, samples at 0.7/0.75/0.9/1.0, plus user documents of q, q+1, 2q words) is planted 1-3 at a time between out-of-vocabulary blocks; TLC accepts the recorded history only if every plant has a match with its type and name, confidence bit-equal to 1.0 and exactly the planted token span and lines.",
+            "note": "sampled inputs; OOV words verified white-box; the pipeline mechanism itself is not yet a separate TLC model in this round."},
+    "C02": {"technique": "TLC lemma (EditLemma: cost of any valid script >= Levenshtein) + per-call validation of the library's edit script recorded through the score hook (TraceV2 ScoreOK/Scored)",
+            "text": "TLC proves the lemma exhaustively on small sequences; on real inputs every score() call is an event with the script and both token sequences, TLC checks validity, dist = Cost(script), the trimmed prefix/suffix, and that each reported match is backed by such a call with bit-equal confidence, span and lines.",
+            "note": "go-diff is an environment whose output is checked per call; sampled inputs."},
+    "C03": {"technique": "recorded Match histories validated by TLC against V2Contract.WellFormed",
+            "text": "Arbitrary byte inputs, texts edited at rates bracketing 1-threshold, concatenations and scenario files at 7 thresholds and corpora with odd names; TLC evaluates threshold <= confidence <= 1.0 (as ranks), corpus membership, line/token bounds and ordering on every return.",
+            "note": "sampled inputs; thresholds below 0.5 on small corpora."},
+    "C04": {"technique": "recorded call histories of 5 classifiers x 3 processes validated by TLC (memo of results per input, PureMatch/PureGrow guards)",
+            "text": "The same inputs are matched on classifiers that differ in insertion order, unrelated extra documents, tracing and instance, with interleaved Match/MatchFrom/Normalize calls and in separate processes; TLC requires identical projected Results per input and unchanged documents, dictionary and caller bytes.",
+            "note": "sampled inputs and histories; map seeds vary by process."},
+    "C05": {"technique": _V2 + "; relational invariants Recase/Respace/Decorate/Typographic/BlankLine",
+            "text": "TLC checks the single-site invariance relations on every input <= 5 (6 thorough) over two alphabets; every enumerated input is replayed into the real tokenizer (spec = code on all of them); 17 transformation kinds and compositions on real documents are validated as Pair events.",
+            "note": "exhaustive within the alphabets/bounds; real documents sampled in quick, all in thorough."},
+    "C06": {"technique": _V2 + "; invariants NoticeIns/Marker, expected counter-examples MarkerParen/HyphenSplit replayed as probes",
+            "text": "As C05 with chunk alphabets (copyright/date/marker chunks, spelling pairs, URL scheme); notice insertion, markers, hyphen split, spellings, http/https on real documents; three recorded findings are re-observed on every run.",
+            "note": "open findings: notices inside a matched span, marker a), header-like word after a split word."},
+    "C07": {"technique": "recorded Match pairs (X alone, P.X.S) validated by TLC (V2Contract.Pair, kind shift); known clamp finding recognised by hook signature",
+            "text": "Edited corpus texts, scenario files and concatenations alone and between out-of-vocabulary blocks; TLC requires the bag of matches to be equal after shifting token indices and lines.",
+            "note": "sampled inputs."},
+    "C08": {"technique": "TLA+ spec V2Buffer (byte buffer, carry-over, stale bytes) model-checked with non-vacuity configs + recorded MatchFrom/Match histories validated by TLC",
+            "text": "TLC explores every stream of <= 3 (4) runes of widths 1-4 incl. truncated sequences x every pad 0..20 x reader faults for BufSize 8; on the real code 8 fragmentations, every pad 0..2056 and failing readers at every offset are recorded and validated (Pair / MatchFail).",
+            "note": "buffer model is scaled (8 bytes); sticky reader errors."},
+    "C10": {"technique": "TLC-enumerated tokenizer inputs replayed under recover + recorded histories of mutated inputs x thresholds x corpora with per-call watchdog, validated by TLC (every return WellFormed)",
+            "text": "Structure-aware mutations (invalid UTF-8, NULs, entities, megabyte lines, storms, boundary truncation) x thresholds 0..1 x corpora (small, empty, with empty documents, full) through Match, MatchFrom, Normalize, AddContent; a panic or timeout is an event without a spec action.",
+            "note": "complexity beyond the 120 s watchdog is out of scope; sampled."},
+    "C11": {"technique": _V2 + "; invariant Fixpoint (TokT(Normalize(in)) = TokT(in)) and byte-exact replay of Normalize",
+            "text": "TLC checks the fixpoint on every small input, the real Normalize output is compared byte for byte with the spec's renderer on every enumerated input, and on real documents tokens of Normalize(in) vs in and Match results are validated as Pair events.",
+            "note": "open findings: token ending in a hyphen at a line end; cleaned line that reads as a notice."},
+    "C12": {"technique": "TLA+ spec V2Load (intended semantics) enumerates trees x spellings; each materialised on disk and loaded by the real LoadLicenses; assets directory and DefaultClassifier compared by Match results",
+            "text": "All sets of <= 2 (3) files from 104 candidates (depth 1..5, four suffix kinds) x 5 spellings; corpus keys and Match equivalence with AddContent; LoadLicenses(assets) under 4 spellings and DefaultClassifier on all 431 documents + scenarios.",
+            "note": "exhaustive within the candidate set."},
+})
 for e in ENGINES:
     e["serves_properties"] = sorted(CHECKS)
